@@ -469,6 +469,8 @@ def first_bad_pair(dname, toks):
 
 
 def check(rep, tier):
+    from vlib import statecensus
+    statecensus.obligations(rep, 'C03', 'parser')
     rep.dropped = ('tables are not extracted but regenerated by importing the real parser classes from $REPO_ROOT; '
                    'the parenthesis action is read with ast.parse (decorators other than @_ and comments dropped)')
     rep.assume('T1 (yacc precedence theorem, Aho-Johnson-Ullman 1975): if every shift/reduce decision between a completed '
